@@ -282,6 +282,12 @@ fn join_case(front: Front, reg: Reg, dl_fixed: Option<u8>, rng: &mut Prng, col: 
             col.event("harness_expectation_mismatch");
             expect_join = ref_any_ok;
         }
+        // fixed plans, one attempt in five: the application (or ADR before a re-join) has the device on the
+        // 500 kHz uplink rate when the accept arrives - what the accept defines is applied all the same
+        if reg.fixed() && rng.chance(1, 5) {
+            dev.set_datarate(if reg == Reg::US915 { 4 } else { 6 });
+            col.event("joins_at_the_500khz_rate");
+        }
         let was_joined = dev.snapshot().joined;
         let snap_before = dev.snapshot();
         let ev0 = dev.ev_len();
